@@ -10,6 +10,7 @@ import (
 
 // Gen is the global generation context of one run.
 type Gen struct {
+	ruleProps []string // properties of the fusion lemma being generated
 	P        *Prog
 	C        *Contracts
 	Pre      *Prelude
